@@ -97,11 +97,34 @@ def R_neg_lower(a):
     return (t4 - exp_hi(a)) / (abs(a) ** 5)
 
 
+def calls_exp(facts, f):
+    for h in [f] + local_callees(facts, f):
+        for blk in h['body']['blocks']:
+            t = blk['term']
+            if t['t'] == 'call' and 'fn' in t['func'] and t['func']['fn']['def']['path'].endswith('::exp'):
+                return True
+    return False
+
+
+def tail_helpers(cx, f_s):
+    """the two f64 -> f64 helpers that exp_5_taylor (public) switches between, by role: the closed form is the one that
+    calls exp, the series the one that does not (`exp_5_tail_anal` / `exp_5_tail_taylor` today)"""
+    if f_s is None:
+        return None, None
+    cands = []
+    for h in local_callees(cx.facts, f_s, depth=1):
+        a, r = sig_of(h)
+        if len(a) == 1 and ty_is(a[0], 'f64') and ty_is(r, 'f64'):
+            cands.append(h)
+    with_exp = [h for h in cands if calls_exp(cx.facts, h)]
+    without = [h for h in cands if h not in with_exp]
+    return (without[0] if len(without) == 1 else None), (with_exp[0] if len(with_exp) == 1 else None)
+
+
 def check_symbolic(cx, rep):
     out = {}
-    f_t = fn(cx, 'log_poly::taylor::exp_5_tail_taylor')
-    f_a = fn(cx, 'log_poly::taylor::exp_5_tail_anal')
     f_s = fn(cx, 'log_poly::taylor::exp_5_taylor')
+    f_t, f_a = tail_helpers(cx, f_s)
     x = sym('x')
     if f_t is not None:
         inst = f_t['path']
@@ -268,6 +291,8 @@ def check_numeric(cx, rep, info):
     f_s = fn(cx, 'log_poly::taylor::exp_5_taylor')
     file, line = fn_loc(f_s) if f_s else (None, None)
     inst = 'log_poly::taylor::exp_5_taylor'
+    _t, _a = tail_helpers(cx, f_s)
+    closed_fn = _a['path'] if _a else inst
     if lo is None or hi is None or ser is None or clo is None or ser['kmax'] is None or clo['kmax'] is None or info.get('eval_kmax') is None:
         rep.ob('total', inst, False, 'symbolic facts missing: numeric bounds cannot be computed (fails closed)', fn=inst, file=file, line=line)
         return
@@ -403,7 +428,7 @@ def check_numeric(cx, rep, info):
     rep.ob('cancel', inst, tau3 <= BUDGET / 2,
            'closed form on [%s, %s] ∪ [%s, %s]: worst relative error %.3g on box [%.4g, %.4g] (%d boxes)' %
            (float(hi), float(LN_MAX), float(X_MIN), float(lo), float(tau3), float(worst_at[0]), float(worst_at[1]), boxes),
-           fn='log_poly::taylor::exp_5_tail_anal', file=file, line=line,
+           fn=closed_fn, file=file, line=line,
            msg='cancellation in the closed form: relative error up to %.3g near x ∈ [%.4g, %.4g] exceeds the budget (switch point too close to 0?)' %
            (float(tau3), float(worst_at[0]), float(worst_at[1])))
     total = gamma(info['eval_kmax'] + 2) + max((tau1 or 1) + tau2, tau3)
@@ -413,10 +438,10 @@ def check_numeric(cx, rep, info):
                               tau_series_round=float(tau2), tau_closed=float(tau3), total=float(total), lo=float(lo), hi=float(hi), M=M)
     # ---- range of the exp argument
     ok_range = X_MAX <= LN_MAX
-    rep.ob('range', 'log_poly::taylor::exp_5_tail_anal:exp-arg', ok_range,
+    rep.ob('range', 'exp_5_taylor/closed-form:exp-arg', ok_range,
            'exp is called on x = −ln v ∈ [%s, %s]; finite only up to %s' % (float(hi), float(X_MAX), float(LN_MAX)),
-           fn='log_poly::taylor::exp_5_tail_anal', file=file, line=line,
-           key='C10:range:log_poly::taylor::exp_5_tail_anal:exp-arg',
+           fn=closed_fn, file=file, line=line,
+           key='C10:range:exp_5_taylor/closed-form:exp-arg',
            msg='for subnormal v the closed form evaluates exp(x) with x up to 744.44 > ln(f64::MAX) = 709.78: it overflows to +inf '
                'and the result is inf or NaN although the exact value is finite')
 
